@@ -10,6 +10,7 @@ import (
 
 	"github.com/Comcast/sheens/verifrt/ref/rtimers"
 	"github.com/Comcast/sheens/verifrt/sched"
+	"github.com/Comcast/sheens/verifrt/vbolt"
 	"github.com/Comcast/sheens/verifrt/vh"
 )
 
@@ -32,6 +33,7 @@ nodes:
       source: |-
         var log = _.bindings.log || [];
         log.push(_.bindings["?t"]);
+        _.out({answer: _.bindings["?t"]});
         return {log: log};
     branching:
       branches:
@@ -40,7 +42,7 @@ nodes:
 
 // gOp: one request as a message to "timers".
 type gOp struct {
-	K   string `json:"k"`             // make | makeat | cancel | pending | bad
+	K   string `json:"k"`             // make | makeat | cancel | pending | bad | storefail (the next D write transactions fail)
 	Id  string `json:"id,omitempty"`  //
 	D   int64  `json:"d,omitempty"`   // delay in ms (make) / offset in s from the epoch (makeat)
 	Bad string `json:"bad,omitempty"` // which malformed request
@@ -75,6 +77,8 @@ type c17gCase struct {
 type glueRun struct {
 	timersRun
 	machineLog []int
+	answers    map[int]int // token -> how many times the machine answered it (its emissions reach the host even when its state cannot be stored)
+	storeFails bool
 	extra      []string
 }
 
@@ -92,6 +96,7 @@ func runGlueScenario(dir string, sc gScenario, prefix, prefixN []int) (*sched.Ex
 		return nil, nil, err
 	}
 	errs := make(chan interface{}, 64)
+	s.Emitted = make(chan interface{}, 4096)
 	s.Errors = errs
 	s.timers.Errors = errs
 	x := sched.NewExec(prefix, prefixN)
@@ -178,6 +183,9 @@ func runGlueScenario(dir string, sc gScenario, prefix, prefixN []int) (*sched.Ex
 			if e := send(req); e == "" {
 				r.extra = append(r.extra, "malformed request "+op.Bad+" was not refused")
 			}
+		case "storefail":
+			vbolt.FailUpdates = int(op.D)
+			r.storeFails = true
 		case "pending":
 			s.timers.Lock()
 			var ids []string
@@ -209,7 +217,21 @@ func runGlueScenario(dir string, sc gScenario, prefix, prefixN []int) (*sched.Ex
 			}
 		}
 	}
-	if e := drain(); e != "" {
+	r.answers = map[int]int{}
+	for more := true; more; {
+		select {
+		case v := <-s.Emitted:
+			if m, ok := v.(map[string]interface{}); ok {
+				var n int
+				if _, err := fmt.Sscan(fmt.Sprint(m["answer"]), &n); err == nil {
+					r.answers[n]++
+				}
+			}
+		default:
+			more = false
+		}
+	}
+	if e := drain(); e != "" && !r.storeFails {
 		r.extra = append(r.extra, "errors reported outside any request: "+e)
 	}
 	return x, r, nil
@@ -227,6 +249,20 @@ func glueJudge(x *sched.Exec, r *glueRun) [][2]string {
 	got := map[int]int{}
 	for _, t := range r.machineLog {
 		got[t]++
+	}
+	for t, n := range r.answers {
+		if n > fired[t] {
+			out = append(out, [2]string{"timer-message-processed-more-than-once", fmt.Sprintf("token %d fired %d time(s) but the addressed machine answered it %d time(s)", t, fired[t], n)})
+		}
+	}
+	if r.storeFails {
+		// a firing whose state cannot be stored leaves the machine as it was: the machine's log says nothing then
+		for _, e := range r.extra {
+			if !strings.HasPrefix(e, "emitter error") {
+				out = append(out, [2]string{"glue/" + strings.SplitN(e, ":", 2)[0], e})
+			}
+		}
+		return out
 	}
 	for t, n := range fired {
 		if got[t] != n {
@@ -259,6 +295,10 @@ func glueScenarios(thorough bool) []gScenario {
 					out = append(out, gScenario{Req: []gOp{a, b, c}})
 				}
 			}
+		}
+		// the store fails when the timer goes off: the machine's new state cannot be stored - and the firing is still one firing
+		for _, n := range []int64{1, 2, 5} {
+			out = append(out, gScenario{Req: []gOp{a, {K: "storefail", D: n}}}, gScenario{Req: []gOp{a, {K: "storefail", D: n}, {K: "pending"}}})
 		}
 		for _, bad := range []string{"no-message", "bad-duration", "non-string-id", "no-when", "delete-non-string", "neither"} {
 			out = append(out, gScenario{Req: []gOp{a, {K: "bad", Bad: bad}, {K: "pending"}}})
@@ -293,7 +333,7 @@ func C17glue(c *vh.Ctx) {
 	}
 	scs := glueScenarios(!c.Quick())
 	c.Bound("glue_deviations_max", bound)
-	c.Rule("mcrew timers through the service: requests are messages addressed to \"timers\" handed to Service.Process (makeTimer with a delay, makeTimer with an absolute RFC3339 time, deleteTimer, malformed requests of six kinds), a firing comes back through the service's own emitter (Service.Process) to the machine the timer's message names; request sequences of up to the bound starting with a make; every schedule of requester, timer goroutines and fire events with at most k deviations, virtual time; oracle: the timer monitor (at most once, never early, never after a successful cancel, exactly once at the end of time, pending set), every firing reaches the addressed machine exactly once, malformed requests are refused and leave the existing timers alone.")
+	c.Rule("mcrew timers through the service: requests are messages addressed to \"timers\" handed to Service.Process (makeTimer with a delay, makeTimer with an absolute RFC3339 time, deleteTimer, malformed requests of six kinds), a firing comes back through the service's own emitter (Service.Process) to the machine the timer's message names; request sequences of up to the bound starting with a make; every schedule of requester, timer goroutines and fire events with at most k deviations, virtual time; oracle: the timer monitor (at most once, never early, never after a successful cancel, exactly once at the end of time, pending set), every firing reaches the addressed machine exactly once (also when the store fails at that moment: the machine answers a firing at most once), malformed requests are refused and leave the existing timers alone.")
 	for i, sc := range scs {
 		if !c.Mine(uint64(i)) {
 			continue
